@@ -223,3 +223,195 @@ package hermes
 //@   invariant set: forall(j, 1, \i, g.TSOIL[0][j] == g.TD[j])
 //@   invariant rest: forall(j, \i, g.N+2, g.TSOIL[0][j] == pre(g.TSOIL[0][j])) && g.TSOIL[0][0] == pre(g.TSOIL[0][0])
 //@   invariant surface: g.TSOIL[1][0] == pre(g.TSOIL[1][0])
+
+// ---------------------------------------------------------------------------
+// C01 / C06 / C08  water transport of one sub-step (capacity cascade)
+// F(k): flux through the upper boundary of layer k (k = 0: surface), D(k): drain outflow of layer k.
+//@ func Water
+//@   serves C01, C06, C08
+//@   define a0() = g.FLUSS0*wdt
+//@   define F(k) = ite(k == 0, g.FLUSS0*wdt, g.Q1[k])
+//@   define D(k) = ite(k+1 == g.DRAIDEP, g.QDRAIN, 0.0)
+//@   define bal(k) = WATER[1][k] == WATER[0][k] + F(k) - F(k+1) - D(k)
+//@   define w0(k) = WATER[0][k] == g.WG[0][k]*g.DZ.Num - g.TP[k]*wdt
+//@   define start(k) = ite(subd == 1, old(g.WG[0][k]), old(g.WG[1][k]))
+//@   define w0s(k) = WATER[0][k] == start(k)*g.DZ.Num - g.TP[k]*wdt
+//@   define clampTP(k) = ite(old(g.TP[k]) > (old(g.WG[0][k])-g.WMIN[k])*g.DZ.Num, ite(old(g.WG[0][k]) < g.WMIN[k], 0.0, (old(g.WG[0][k])-g.WMIN[k])*g.DZ.Num), old(g.TP[k]))
+//@   define dry(k) = g.WMIN[k]/3*g.DZ.Num
+//@   requires layers: 1 <= g.N && g.N <= 20
+//@   requires dz: g.DZ.Num == 10
+//@   requires step: 0 < wdt && wdt <= 1
+//@   requires outn: 0 <= g.OUTN && g.OUTN <= g.N
+//@   requires drain: 0 <= g.DRAIFAK && g.DRAIFAK <= 1
+//@   requires crop: 0 <= g.AKF.Index && g.AKF.Index < 300
+//@   requires[C06] soil: forall(k, 0, g.N, 0 < g.WMIN[k] && g.WMIN[k] < g.W[k])
+//@   requires[C06] caps: forall(k, 0, 21, g.CAPS[k] >= 0)
+//@   ensures[C01] balance: forall(k, 0, g.N, g.WG[1][k]*g.DZ.Num == start(k)*g.DZ.Num - g.TP[k]*wdt + F(k) - F(k+1) - D(k))
+//@   ensures[C01] drainsum: g.DRAISUM == old(g.DRAISUM) + g.QDRAIN*10
+//@   ensures[C01] bottom: g.SICKER + g.CAPSUM == old(g.SICKER) + old(g.CAPSUM) + g.Q1[g.OUTN]*10 - l.GWAUF*10*wdt
+//@   ensures[C01] uptake: forall(k, 0, g.N, g.TP[k] == ite(subd == 1, clampTP(k), old(g.TP[k])))
+//@   ensures[C01] surface: unchanged(g.FLUSS0, l.GWAUF)
+//@   ensures[C01] startcopy: forall(k, 0, g.N, g.WG[0][k] == start(k))
+//@   define lowb(k) = WATER[1][k] >= min(WATER[0][k], dry(k))
+//@   ghost var capidx int
+//@   after stmt "WATER[1][caplayIndex] = WATER[1][caplayIndex] + g.CAPS[": ghost capidx = GWDISTindex
+//@   requires[C06] nocap: capidx == 0-1
+//@   define capped(k) = WATER[1][k] <= g.W[k]*g.DZ.Num || (0 <= capidx && capidx < 21 && WATER[1][k] <= g.W[k]*g.DZ.Num + g.CAPS[capidx]*g.DZ.Num*wdt)
+//@   ensures[C06] upper: forall(k, 0, g.N, g.WG[1][k] <= g.W[k] || (0 <= capidx && capidx < 21 && g.WG[1][k] <= g.W[k] + g.CAPS[capidx]*wdt))
+//@   ensures[C06] lower: forall(k, 0, g.N, g.WG[1][k]*g.DZ.Num >= min(start(k)*g.DZ.Num - g.TP[k]*wdt, dry(k)))
+//@   ensures[C06,C08] uptakecap: subd == 1 ==> forall(k, 0, g.N, g.TP[k] <= max(0.0, (old(g.WG[0][k]) - g.WMIN[k])*g.DZ.Num))
+//@   ensures[C08] uptakesign: forall(k, 0, g.N, old(g.TP[k]) >= 0 ==> g.TP[k] >= 0)
+//@   safety[C01,C06] div index
+//@ loop Water#1
+//@   invariant range: 0 <= \i && \i <= g.N
+//@   invariant w0: forall(j, 0, \i, w0(j))
+//@   invariant tp: forall(j, 0, \i, g.TP[j] == clampTP(j))
+//@   invariant rest: forall(j, \i, 21, g.TP[j] == old(g.TP[j]))
+//@ loop Water#2
+//@   invariant range: 0 <= \i && \i <= g.N
+//@   invariant w0: forall(j, 0, \i, w0(j) && g.WG[0][j] == old(g.WG[1][j]))
+//@   invariant wg1: g.WG[1] == old(g.WG[1])
+//@ loop Water#3
+//@   invariant range: 1 <= \i && \i <= g.N+1
+//@   invariant q0: g.Q1[0] == a0()
+//@   invariant a: a == g.Q1[\i-1] && a >= 0
+//@   invariant done: forall(j, 0, \i-1, bal(j))
+//@   invariant qd: \i <= g.DRAIDEP ==> g.QDRAIN == 0
+//@   invariant[C06] low: forall(j, 0, \i-1, lowb(j))
+//@   invariant w0s: forall(k, 0, g.N, w0s(k))
+//@ loop Water#4
+//@   invariant range: k1+1 <= \i && \i <= g.N+1
+//@   invariant copied: forall(j, k1, \i-1, WATER[1][j] == WATER[0][j])
+//@   invariant zeroq: forall(j, k1, \i, g.Q1[j] == 0)
+//@   invariant frameW: forall(j, 0, k1, WATER[1][j] == pre(WATER[1][j]))
+//@   invariant frameQ: forall(j, 0, k1+1, g.Q1[j] == pre(g.Q1[j]))
+//@   invariant w0s: forall(k, 0, g.N, w0s(k))
+//@ loop Water#5
+//@   invariant range: 0 <= \i && \i <= g.N
+//@   invariant q0: g.Q1[0] == 0
+//@   invariant a1: -a1 == F(\i)
+//@   invariant[C06] low: forall(j, 0, \i, lowb(j))
+//@   invariant done: forall(j, 0, \i, bal(j))
+//@   invariant w0s: forall(k, 0, g.N, w0s(k))
+//@ loop Water#6
+//@   invariant range: k1+1 <= \i && \i <= g.N
+//@   invariant copied: forall(j, k1+1, \i, WATER[1][j] == WATER[0][j])
+//@   invariant zeroq: forall(j, k1+1, \i+1, g.Q1[j] == 0)
+//@   invariant frameW: forall(j, 0, k1+1, WATER[1][j] == pre(WATER[1][j]))
+//@   invariant frameQ: forall(j, 0, k1+2, g.Q1[j] == pre(g.Q1[j]))
+//@   invariant w0s: forall(k, 0, g.N, w0s(k))
+//@ loop Water#7
+//@   invariant range: 0 <= \i && \i <= g.N
+//@   invariant copied: forall(j, 0, \i, WATER[1][j] == WATER[0][j])
+//@   invariant zeroq: forall(j, 1, \i+1, g.Q1[j] == 0)
+//@   invariant w0s: forall(k, 0, g.N, w0s(k))
+//@ loop Water#8
+//@   invariant range: 0 <= \i && \i <= g.N
+//@   invariant bal: forall(k, 0, g.N, bal(k))
+//@   invariant w0s: forall(k, 0, g.N, w0s(k))
+//@   invariant[C06] low: forall(k, 0, g.N, lowb(k))
+//@   invariant[C06] up: forall(j, 0, \i, WATER[1][j] <= g.W[j]*g.DZ.Num)
+//@ loop Water#9
+//@   invariant range: 0 <= \i && \i <= g.N
+//@   invariant caplay: 0 <= caplay && caplay <= g.N
+//@ loop Water#10
+//@   invariant range: caplay <= \i && \i <= g.N+1
+//@   invariant shifted: forall(j, caplay, \i, g.Q1[j] == pre(g.Q1[j]) - g.CAPS[GWDISTindex]*g.DZ.Num*wdt)
+//@   invariant rest: forall(j, 0, caplay, g.Q1[j] == pre(g.Q1[j])) && forall(j, \i, 22, g.Q1[j] == pre(g.Q1[j]))
+//@ loop Water#11
+//@   invariant range: 1 <= \i && \i <= g.N+1
+//@   invariant conv: forall(j, 0, \i-1, g.WG[1][j]*g.DZ.Num == WATER[1][j])
+//@   invariant bal: forall(k, 0, g.N, bal(k))
+//@   invariant[C06] low: forall(k, 0, g.N, lowb(k))
+//@   invariant[C06] up: forall(k, 0, g.N, capped(k))
+//@   invariant wg0: g.WG[0] == pre(g.WG[0])
+//@   invariant w0s: forall(k, 0, g.N, w0s(k))
+
+// ---------------------------------------------------------------------------
+// C01 / C08  evapotranspiration of one day: surface flux, caps, uptake domain
+//@ func Evatra
+//@   serves C01, C08, C06
+//@   define tag() = g.TAG.Index
+//@   define pet() = (g.VERDUNST - old(g.VERDUNST))
+//@   define cropped() = zeit > g.SAAT[g.AKF.Index] && g.INTWICK.Num > 1 && ((g.ERNTE[g.AKF.Index] > 0 && zeit < g.ERNTE[g.AKF.Index]) || (g.ERNTE[g.AKF.Index] == 0 && zeit < g.ERNTE2[g.AKF.Index]))
+//@   requires layers: 1 <= g.N && g.N <= 20
+//@   requires units: g.DZ.Num == 10 && g.DT.Num == 1 && g.DT.Index == 1
+//@   requires day: 0 <= g.TAG.Index && g.TAG.Index < 366 && g.TAG.Num == real(g.TAG.Index) + 1
+//@   requires crop: 0 <= g.AKF.Index && g.AKF.Index < 300 && 0 <= g.INTWICK.Index && g.INTWICK.Index < 10
+//@   requires roots: 0 <= g.WURZ && g.WURZ <= g.N
+//@   requires soil: forall(k, 0, g.N, 0 < g.WMIN[k] && g.WMIN[k] < g.WNOR[k] && g.WNOR[k] <= g.W[k])
+//@   requires method: 1 <= g.ETMETH && g.ETMETH <= 5
+//@   requires[C08] inputs: g.VERD[tag()] >= 0 && g.ETNULL[tag()] >= 0 && g.FKC >= 0 && g.FKB >= 0 && g.KCOA >= 0 && g.LAI >= 0
+//@   requires[C08] haude: forall(m, 0, 12, g.FKF[m] >= 0 && g.FKU[m] >= 0)
+//@   requires[C08] turc: g.ETMETH == 2 ==> g.TEMP[tag()] >= 0-22
+//@   requires[C08] sun: g.SUND[tag()] >= 0
+//@   requires[C08] rootdensity: forall(k, 0, 21, g.WUDICH[k] >= 0)
+//@   requires[C08] airstate: g.LUMDAY >= 0 && 0 <= g.ETREL && g.ETREL <= 1 && 0 <= g.TRREL && g.TRREL <= 1
+//@   define rz() = min(real(g.WURZ), g.GRW)
+//@   define wtop() = ite(zeit > g.BEGINN, g.WG[1][0]+g.WG[1][1]+g.WG[1][2], g.WG[0][0]+g.WG[0][1]+g.WG[0][2])
+//@   requires[C08] air: g.LUKRIT[g.INTWICK.Index] > 0 || (g.LUKRIT[g.INTWICK.Index] == 0 && g.N >= 3 && g.PORGES[0]+g.PORGES[1]+g.PORGES[2] >= wtop())
+//@   after stmt "LURMAX := LUPOR / g.LUKRIT[g.INTWICK.Index]": assert[C01,C08] lurmax: 0 <= LURMAX && LURMAX <= 1 && 0 <= g.LUMDAY && g.LUMDAY <= 4
+//@   before stmt "for i := 0; i < g.N; i++ { if float64(i+1) > math.Min(": assert[C01,C08] lured: 0 <= g.LURED && g.LURED <= 1
+//@   before stmt "for i := 0; i < g.N; i++ { if float64(i+1) > math.Min(": assert[C01,C08] tramax: TRAMAX >= 0
+//@   ensures[C01] flux: g.FLUSS0 == g.REGEN[tag()] - g.ETA
+//@   ensures[C01] startcopy: zeit > g.BEGINN ==> forall(i, 0, g.N, g.WG[0][i] == old(g.WG[1][i]))
+//@   ensures[C01] keep: g.WG[1] == old(g.WG[1]) && g.REGEN == old(g.REGEN)
+//@   ensures[C08] petcap: 0 <= pet() && pet() <= ite(cropped(), 0.65, 0.6)
+//@   ensures[C08] evap: 0 <= g.ETA && g.ETA <= pet()
+//@   ensures[C08] rootzone: forall(i, 0, g.N, real(i+1) > rz() ==> g.TP[i] == 0)
+//@   ensures[C01,C08] uptakesign: forall(i, 0, g.N, g.TP[i] >= 0)
+//@   ensures[C01,C08] gwsupply: l.GWAUF >= 0
+//@   ensures[C08] etrel: 0 <= g.ETREL && g.ETREL <= 1
+//@   ensures[C08] trrel: 0 <= g.TRREL
+//@   ensures[C08] lured: cropped() ==> 0 <= g.LURED && g.LURED <= 1
+//@   before stmt "for i := 0; i < g.N; i++ { l.NFK[i] =": assert[C08] redev: 0 <= REDEV && REDEV <= 1
+//@   before stmt "if EVMAX > .65 {": assert[C08] split: 0 <= VERDU[tag()] && VERDU[tag()] <= ite(cropped(), 0.65, 0.6) && 0 <= EVMAX && EVMAX <= VERDU[tag()] && TRAMAX == VERDU[tag()] - EVMAX
+//@   safety[C06] index
+//@ loop Evatra#2
+//@   invariant range: 0 <= \i && \i <= g.N
+//@ loop Evatra#3
+//@   invariant range: 0 <= \i && \i <= g.N
+//@ loop Evatra#4
+//@   invariant range: 0 <= \i && \i <= g.N
+//@ loop Evatra#5
+//@   invariant range: 0 <= \i && \i <= g.N
+//@ loop Evatra#6
+//@   invariant range: 0 <= \i && \i <= g.WURZ
+//@   invariant[C08] eff: forall(j, 0, \i, 0 <= WUEFF[j] && WUEFF[j] <= 1 && 0 <= TRRED[j] && TRRED[j] <= 1)
+//@   invariant[C08] weff: WEFF >= 0 && forall(j, 0, \i, WEFF >= WUEFF[j]*g.WUDICH[j])
+//@ loop Evatra#7
+//@   invariant range: 0 <= \i && \i <= g.N
+//@   invariant[C08] zero: forall(j, 0, \i, real(j+1) > rz() ==> g.TP[j] == 0)
+//@   invariant[C01,C08] sign: forall(j, 0, \i, g.TP[j] >= 0)
+//@ loop Evatra#8
+//@   invariant range: 1 <= \i && \i <= g.N+1
+//@   invariant[C08] zero: forall(j, 0, g.N, real(j+1) > rz() ==> g.TP[j] == 0)
+//@   invariant[C01,C08] sign: forall(j, 0, g.N, g.TP[j] >= 0)
+//@   invariant[C01,C08] acc: TPAKT >= 0 && l.GWAUF >= 0
+//@ loop Evatra#9
+//@   invariant range: i+1 <= \i && \i <= g.N+1
+//@   invariant[C08] zero: forall(j, 0, g.N, real(j+1) > rz() ==> g.TP[j] == 0)
+//@   invariant[C01,C08] sign: forall(j, 0, g.N, g.TP[j] >= 0)
+//@ loop Evatra#10
+//@   invariant range: 0 <= \i && \i <= g.N
+//@   invariant[C01,C08] zero: forall(j, 0, \i, g.TP[j] == 0)
+//@ loop Evatra#1
+//@   invariant range: 0 <= \i && \i <= g.N
+//@   invariant copied: forall(j, 0, \i, g.WG[0][j] == old(g.WG[1][j]))
+//@   invariant wg1: g.WG[1] == old(g.WG[1])
+
+// Astronomical helper: trigonometric identities are outside the solver's reach; the contract is ASSUMED (trusted)
+// and cross-checked by a bounded numeric sweep of the real function (hvc bounded, labelled bounded).
+//@ func CalculateDayLenght
+//@   serves C08
+//@   trusted
+//@   ensures daylength: 0 <= DL && DL <= 24
+//@   ensures radiation: EXT >= 0
+//@   modifies nothing
+
+// Haude/Heger factor reader (text layer): the factors it stores are assumed non-negative (parameter file domain).
+//@ func verdun
+//@   serves C08
+//@   trusted
+//@   ensures factors: forall(m, 0, 12, g.FKF[m] >= 0 && g.FKU[m] >= 0)
+//@   modifies g.FKF, g.FKU
